@@ -85,7 +85,7 @@
 //   - Tabs are not supported for defining block structures; use spaces instead.
 //     Tabs in other context are supported.
 //
-//   - Among HTML entities, only a few are supported: &lt; &gt; &quote; &apos;
+//   - Among HTML entities, only a few are supported: &lt; &gt; &quot; &apos;
 //     &amp;. This is because the full list of HTML entities is very large and
 //     will inflate the binary size.
 //
@@ -184,7 +184,7 @@ var charRefRegexp = regexp.MustCompile(charRefPattern)
 
 var entities = map[string]rune{
 	// Necessary for writing valid HTML
-	"lt": '<', "gt": '>', "quote": '"', "apos": '\'', "amp": '&',
+	"lt": '<', "gt": '>', "quot": '"', "apos": '\'', "amp": '&',
 	// Not strictly necessary, but could be output by FmtCodec for slightly
 	// nicer text
 	"Tab": '\t', "NewLine": '\n', "nbsp": '\u00A0',
